@@ -18,10 +18,25 @@ pub const UNCACHED_LIMIT: usize = 200_000;
 
 pub fn check_text(t: &str, family: &str, st: &mut Stats) -> Vec<Violation> {
     let mut out = Vec::new();
-    let cached = match crate::util::guard(|| parse_dump(t, true)) {
-        Ok(c) => c,
+    // The cached parse runs under a read limit just above the linear bound, so that a super-linear parser is
+    // reported after bounded work instead of being waited for.
+    let n0 = match crate::util::guard(|| crate::oracle::syntax::count_non_trivia(t)) {
+        Ok(n) => n + 1,
         Err(_) => {
-            // a crashing front end is C04's subject
+            st.inc("front_end_panicked_left_to_C04");
+            return out;
+        }
+    };
+    let cached = match crate::util::guard(|| parse_dump_limited(t, true, K * n0 + C + 1)) {
+        Ok(Some(c)) => c,
+        Ok(None) => {
+            out.push(Violation::new(
+                "the memoising parser read more tokens than the linear bound allows",
+                json!({"signature": "C12 linear-bound", "reads": "cut off above the bound", "tokens": n0, "bound": K * n0 + C}),
+            ));
+            return out;
+        }
+        Err(_) => {
             st.inc("front_end_panicked_left_to_C04");
             return out;
         }
@@ -108,7 +123,7 @@ pub struct Growth;
 
 impl Workload for Growth {
     fn len(&self) -> u64 {
-        18
+        22
     }
     fn case_json(&self, _seed: u64, idx: u64) -> Value {
         json!({"family": idx})
@@ -118,8 +133,16 @@ impl Workload for Growth {
         let mut out = Vec::new();
         for d in [25usize, 50, 100] {
             let (Some(a), Some(b)) = (nesting(fam, d), nesting(fam, 2 * d)) else { continue };
-            let ra = parse_dump(&a, true).reads.max(1);
-            let rb = parse_dump(&b, true).reads;
+            let bound = |t: &str| K * (crate::oracle::syntax::count_non_trivia(t) + 1) + C + 1;
+            let (Some(da), Some(db)) = (parse_dump_limited(&a, true, bound(&a)), parse_dump_limited(&b, true, bound(&b))) else {
+                out.push(Violation::new(
+                    "the memoising parser read more tokens than the linear bound allows",
+                    json!({"signature": "C12 linear-bound", "family": fam, "d": d}),
+                ));
+                continue;
+            };
+            let ra = da.reads.max(1);
+            let rb = db.reads;
             let ratio_x100 = rb * 100 / ra;
             st.max("max_growth_ratio_x100", ratio_x100 as u64);
             st.inc("growth_pairs");
@@ -165,7 +188,7 @@ pub fn run(ctx: &Ctx) -> i32 {
     }
     acc.finish(
         "exploration",
-        "the text workload of C11 (exhaustive token sequences, nesting families, programs, mutants, random texts); each text parsed with Context::new and Context::new().without_cache() (uncached parse cut off at 200k token reads through the read-limit hook and then counted as infeasible), results compared structurally; cached reads bounded by 100*n+100; growth ratio reads(2d)/reads(d) <= 2.5 on 18 nesting families; non-trivial = compared with the uncached parser and the cache was hit at least once; distinct by text hash",
+        "the text workload of C11 (exhaustive token sequences, nesting families, programs, mutants, random texts); each text parsed with Context::new and Context::new().without_cache() (uncached parse cut off at 200k token reads through the read-limit hook and then counted as infeasible), results compared structurally; cached reads bounded by 100*n+100; growth ratio reads(2d)/reads(d) <= 2.5 on 22 nesting families; non-trivial = compared with the uncached parser and the cache was hit at least once; distinct by text hash",
         2000,
         false,
         &["K=100, c=100 leave a 4x margin over the maximum measured on the unchanged tree (see max_reads_per_token)"],
